@@ -37,6 +37,7 @@ type PrintRec struct {
 	Seq  uint64
 	T    int64
 	Text string
+	Was  string // what the caller's buffer held when Write was entered, when that differs from what was written
 }
 
 func NewRecorder(sim *simrt.Sim) *Recorder { return &Recorder{sim: sim} }
@@ -115,6 +116,9 @@ func (w recWriter) Write(p []byte) (int, error) {
 	s := string(p) // a slow terminal reads the caller's buffer when it gets to it, not when Write was entered
 	w.r.mu.Lock()
 	pr := PrintRec{Seq: w.r.sim.Step(), T: w.r.sim.Now(), Text: s}
+	if s != head {
+		pr.Was = head
+	}
 	if w.err {
 		w.r.Err = append(w.r.Err, pr)
 	} else {
